@@ -25,7 +25,7 @@ WORKERS = {"quick": 16, "thorough": 16}
 REQUIRE = {"checked_RQ": 50, "checked_AC": 50, "checked_PDATA": 50, "checked_RJ": 10, "checked_ABORT": 10,
            "subitem_uid_rq": 20, "subitem_commonext": 20, "subitem_role": 20, "zero_len_primary": 1,
            "field_longer_than_255_uid_rq_prim": 5, "field_longer_than_255_uid_rq_sec": 5, "field_longer_than_255_uid_ac_resp": 5,
-           "field_longer_than_255_sopext_info": 5}
+           "field_longer_than_255_sopext_info": 5, "values_under_custom_ae_validator": 500}
 
 
 def gen_cases(tier, seed):
@@ -174,7 +174,31 @@ def _ui_kinds_differ(q, pdu):
     return "other"
 
 
+def _strict_ae(value):
+    """A site-specific AE validator as _config.VALIDATORS allows: the built-in rules plus 'no leading/trailing space' (a naming
+    convention applied to the title itself, not to the padded 16-byte wire field)."""
+    from pynetdicom._validators import validate_ae
+    if isinstance(value, str) and value != value.strip(" "):
+        return False, "must not have leading or trailing spaces"
+    return validate_ae(value)
+
+
 def run_case(case):
+    from pynetdicom import _config
+    prev = _config.VALIDATORS["AE"]
+    strict = case.get("block", 0) % 3 == 2 and "value" not in case
+    if strict:
+        _config.VALIDATORS["AE"] = _strict_ae
+    try:
+        r = _run_case(case)
+    finally:
+        _config.VALIDATORS["AE"] = prev
+    if strict:
+        r["counters"]["values_under_custom_ae_validator"] = r["counters"].get("values", 0)
+    return r
+
+
+def _run_case(case):
     rng = rng_for(case["seed"], PID, case["block"])
     counters = {}
     keys = set()
